@@ -13,7 +13,7 @@ from __future__ import annotations
 import ast
 from typing import Dict, List, Optional, Set, Tuple
 
-from .. import effect, wire
+from .. import effect, wire, paths
 from ..effect import F
 from ..model import norm_text, AnchorMissing, FuncInfo, Project
 from ..controls import Control
@@ -177,6 +177,18 @@ def rule_shortcircuit(ctx, p: Project):
                 for st in f.node.body:
                     if isinstance(st, ast.If) and _test_mentions(st.test, txt) is False and st.lineno < node.lineno and _always_returns(st.body):
                         guarded = True
+            # conditional-expression form of the substitution: `slot if slot is not None else <recorded quantity>` (wherever the expression stands)
+            if isinstance(parent, ast.IfExp) and node is not parent.test:
+                pos = _test_mentions(parent.test, txt)
+                okg = (pos is True and node is parent.body) or (pos is False and node is parent.orelse)
+                other = parent.orelse if node is parent.body else parent.body
+                Q = prov.get(S, set())
+                last = other.attr if isinstance(other, ast.Attribute) else None
+                ok = okg and ((last in Q) or ((S, norm_text(other)) in SUBST_ALIASES))
+                ctx.ob(rule, inst + ":substitute", ok, where=f, node=stmt if stmt is not None else node, construct=f"{f.qualname}: {norm_text(parent)[:100]}",
+                       detail=f"slot, otherwise {norm_text(other)}",
+                       message=f"`{S}` (recorded from {sorted(Q) or 'nothing'}) is substituted for {norm_text(other)[:50]}, which is not the quantity it was recorded from")
+                continue
             if isinstance(stmt, ast.Return):
                 v = _strip_copy(stmt.value)
                 rekey = isinstance(stmt.value, ast.Call) and norm_text(stmt.value.func) == f"{s}._updated_cls_key_dict_from" and any(k.arg == "preload_dict" and k.value is node for k in stmt.value.keywords)
@@ -326,29 +338,48 @@ def rule_wiring(ctx, p: Project):
             ok = got == name or (name == "preloads" and got in (None, "None", "Preloads()"))  # dropping the preloads only costs time
             ctx.ob(rule, f"{norm_text(c.func)}({name}=)", ok, where=fac, node=c, construct=f"{norm_text(c.func)}({name}={got})",
                    message=f"both formalisms must be built from the factory's own `{name}`; got {got}")
+    # decided on the decision table of the factory: every path (sa/paths.py: locals substituted, new helpers looked into, conditional expressions split) with the
+    # conditions that hold on it and the constructor it returns
+    PS = paths.path_summaries(fac, project=p)
+    rets = [q for q in (PS or []) if q.kind == "return" and isinstance(q.value, ast.Call) and paths.ptext(q.value.func) in ("InversionImagingWTilde", "InversionImagingMapping")]
+    if PS is None or len(rets) != len([q for q in PS if q.kind == "return"]) or not rets:
+        ctx.ob(rule, "formalism decision", None if PS is None else False, where=fac, node=fac.node, construct=f"{len(rets)} constructor-returning paths", message="every path through the factory must return one of the two formalisms")
+        return
+    ALLM = f"all((isinstance(linear_obj, {FUNC_LIST}) for linear_obj in linear_obj_list))"
+    allowed = {ALLM, "preloads.use_w_tilde is not None", "preloads.use_w_tilde", "settings.use_w_tilde", "preloads.w_tilde is not None"}
+    wt_paths = [q for q in rets if paths.ptext(q.value.func) == "InversionImagingWTilde"]
+    mp_paths = [q for q in rets if q not in wt_paths]
     # w_tilde argument: preloaded or the dataset's
-    wt = [c for c in ctor_calls if norm_text(c.func) == "InversionImagingWTilde"]
-    if wt:
-        got = wire.kwtext(wt[0]).get("w_tilde")
-        asg = [n for n in fac.body_nodes() if isinstance(n, ast.Assign) and isinstance(n.targets[0], ast.Name) and n.targets[0].id == "w_tilde"]
-        vals = sorted(norm_text(a.value) for a in asg)
-        ctx.ob(rule, "w_tilde source", got == "w_tilde" and vals == ["dataset.w_tilde", "preloads.w_tilde"], where=fac, node=wt[0], construct=f"w_tilde={got} from {vals}",
-               message="the w-tilde object must be the preloaded one when present and the dataset's own otherwise")
-    # decision: never w-tilde against the settings or without a mapper
-    asg = [n for n in fac.body_nodes() if isinstance(n, ast.Assign) and isinstance(n.targets[0], ast.Name) and n.targets[0].id == "use_w_tilde"]
-    vals = sorted({norm_text(a.value) for a in asg})
-    ctx.ob(rule, "use_w_tilde sources", set(vals) <= {"False", "preloads.use_w_tilde", "settings.use_w_tilde"}, where=fac, node=asg[0] if asg else fac.node, construct=f"use_w_tilde in {vals}",
+    okw = bool(wt_paths)
+    detw = []
+    for q in wt_paths:
+        got = paths.ptext(paths.kwargs(q.value).get("w_tilde"))
+        pre = q.holds("preloads.w_tilde is not None")
+        detw.append(f"w_tilde={got} when preloads.w_tilde is not None = {pre}")
+        okw = okw and ((pre is True and got == "preloads.w_tilde") or (pre is False and got == "dataset.w_tilde"))
+    ctx.ob(rule, "w_tilde source", okw, where=fac, node=wt_paths[0].node if wt_paths else fac.node, construct="; ".join(sorted(set(detw)))[:200],
+           message="the w-tilde object must be the preloaded one when present and the dataset's own otherwise")
+    # decision: only settings / preloads.use_w_tilde / object kinds
+    tests = {t for q in rets for t, _ in q.conds}
+    ctx.ob(rule, "use_w_tilde sources", tests <= allowed, where=fac, node=fac.node, construct=f"conditions {sorted(tests - allowed) or sorted(tests)}"[:300],
            message="the formalism may depend only on settings.use_w_tilde, preloads.use_w_tilde and the kinds of linear objects")
-    ifs = [n for n in fac.node.body if isinstance(n, ast.If)]
-    override = [i for i in ifs if norm_text(i.test) == "not settings.use_w_tilde" and len(i.body) == 1 and norm_text(i.body[0]) == "use_w_tilde = False"]
-    decide = [i for i in ifs if norm_text(i.test) == "use_w_tilde"]
-    ok = len(override) == 1 and len(decide) == 1 and override[0].lineno < decide[0].lineno and not any(a.lineno > override[0].lineno for a in asg if a not in override[0].body)
-    ctx.ob(rule, "settings override", ok, where=fac, node=override[0] if override else fac.node, construct="if not settings.use_w_tilde: use_w_tilde = False (last assignment before the choice)",
+    ok = bool(wt_paths) and all(q.holds("settings.use_w_tilde") is True for q in wt_paths)
+    ctx.ob(rule, "settings override", ok, where=fac, node=fac.node, construct=str([q.conds for q in wt_paths if q.holds("settings.use_w_tilde") is not True][:1]) if not ok else "every w-tilde path has settings.use_w_tilde",
            message="settings.use_w_tilde = False must force the mapping formalism whatever the preloads say")
-    first = ifs[0] if ifs else None
-    ok = first is not None and norm_text(first.test).replace(" ", "") == f"all((isinstance(linear_obj,{FUNC_LIST})forlinear_objinlinear_obj_list))" and norm_text(first.body[0]) == "use_w_tilde = False"
-    ctx.ob(rule, "no mapper -> mapping formalism", ok, where=fac, node=first if first is not None else fac.node, construct=norm_text(first.test)[:100] if first is not None else "missing",
+    ok = bool(wt_paths) and all(q.holds(ALLM) is False for q in wt_paths)
+    ctx.ob(rule, "no mapper -> mapping formalism", ok, where=fac, node=fac.node, construct=str([q.conds for q in wt_paths if q.holds(ALLM) is not False][:1])[:200] if not ok else "every w-tilde path excludes the all-function-lists case",
            message="when every linear object is a function list the w-tilde formalism (which needs a mapper) must not be chosen, whatever preloads.use_w_tilde says")
+    # the preloaded choice decides when present, the settings otherwise (in both directions: the w-tilde formalism IS chosen when nothing forbids it)
+    ok = True
+    for q in rets:
+        if q.holds(ALLM) is not False or q.holds("settings.use_w_tilde") is not True:
+            continue
+        has = q.holds("preloads.use_w_tilde is not None")
+        want_wt = q.holds("preloads.use_w_tilde") if has is True else (True if has is False else None)
+        if want_wt is None or (q in wt_paths) != want_wt:
+            ok = False
+    ctx.ob(rule, "preloaded choice", ok and bool(mp_paths), where=fac, node=fac.node, construct=f"{len(wt_paths)} w-tilde path(s), {len(mp_paths)} mapping path(s)",
+           message="with a mapper present and the settings allowing it, preloads.use_w_tilde decides when it is set and the settings decide otherwise")
     # the w-tilde inversion checks the object against the dataset's noise map under the same condition it stores it
     init = p.func("autoarray.inversion.inversion.imaging.w_tilde:InversionImagingWTilde.__init__")
     chk = [c for c in init.calls() if isinstance(c.func, ast.Attribute) and c.func.attr == "check_noise_map"]
